@@ -200,7 +200,9 @@ void h_open_log(void)
 void h_search(void)
 {
   uint8_t IN[20]; size_t IN_N = nondet_size_t();
-  IORA_NONDET_BYTES(IN, 20);
+  /* no initialisation loop (it would need --unwind 21 and unroll the big replay loop 21 times): explicit nondet assignments */
+#define IN4(k) IN[k] = nondet_u8(); IN[k + 1] = nondet_u8(); IN[k + 2] = nondet_u8(); IN[k + 3] = nondet_u8();
+  IN4(0) IN4(4) IN4(8) IN4(12) IN4(16)
   __CPROVER_assume(IN_N <= 20);
   iora_gfile gf; gf.exists = true; gf.p = IN; gf.n = IN_N;
   KVStore st; st._logPath = &gf;
